@@ -129,8 +129,9 @@ class C04(PropBase):
                 "precondition scan_wf_layout (gaps inside the 160/40-word windows, return addresses acceptable, padding not) is walked to exactly "
                 "the generated chain (return address, instruction = ra - adj, sp, trust scan, validity) and the walk stops at the generated end; "
                 "c04_recovers_chain_partial_cfi — same for all six architectures when every frame is described by CFI, through the abstract "
-                "correct oracle; c04_constants pins the documented windows / slack. One technique per walk. Frame-pointer chains, mips32 scan, "
-                "mixed techniques and real STACK CFI text are covered by the correspondence run only: depth 1..64 stacks for every CPU x OS "
+                "correct oracle (and any oracle agreeing with it); c04_recovers_chain_partial_fp — frame-pointer chains for x86, amd64, arm/iOS, arm64; "
+                "scan incl. mips32; c04_constants pins the documented windows / slack. One technique per walk. "
+                "Mixed techniques and real STACK CFI text are covered by the correspondence run only: depth 1..64 stacks for every CPU x OS "
                 "through the real walk_stack and the extracted model, with an independent oracle comparing the frames with the generated chain.",
         "note": "Partial: no theorem for frame-pointer chains, for the mips32 scanner (MIN_ARGS skip) or for technique-per-frame mixes; STACK WIN "
                 "not generated; function names not observed (C11). Trusted: Coq kernel, hand-written walker model (correspondence-checked), "
